@@ -30,6 +30,60 @@ class SMWalker(lib_exec.ExecWalker):
             st.events.append(('writer-present', (taken != neg) == (c['op'] == '!=')))
 
 
+WIDTH = {'unsigned char': 8, 'unsigned short': 16, 'unsigned int': 32, 'unsigned long': 64, 'unsigned long long': 64,
+         'int': 32, 'long': 64, 'short': 16, 'signed char': 8, 'char': 8, 'long long': 64}
+
+
+def _width(t):
+    t = t.replace('const ', '').replace('volatile ', '').strip()
+    return WIDTH.get(t)
+
+
+def check_wrap_width(ctx, fb, rule):
+    """R-WRAPWIDTH: the reader hand-over is modular arithmetic — the first writer arms _readers_wait with +r, every
+    leaving reader subtracts one, and "all r readers have already left" is recognised by the OLD value being -r in the
+    width of that counter.  A comparison of a counter value with a negated (wrapped) quantity therefore has to be
+    evaluated in the counter's own width: when one operand is widened by an implicit integral conversion and the other
+    is a unary minus (or a wrapping subtraction) computed in the wider type, the two can never be equal (2^64 - r
+    against a zero-extended 32-bit value) and the writer that should not suspend parks forever.  R-INV reasons over
+    mathematical integers and cannot see this."""
+    n = 0
+    for f in fb.fn.values():
+        if f.cfg is None or not f.file.endswith('coro/shared_mutex.hpp'):
+            continue
+        for b in f.own_nodes():
+            if b['k'] != 'BinaryOperator' or b.get('op') not in ('==', '!='):
+                continue
+            sides = []
+            for c in b['ch']:
+                m = f.nodes[c]
+                # strip what the usual arithmetic conversions added: the side's own ("natural") type is underneath
+                while m['k'] in ('ImplicitCastExpr', 'ParenExpr') and m.get('ch') and (
+                        m['k'] == 'ParenExpr' or m.get('cast') in ('IntegralCast', 'NoOp')):
+                    m = f.nodes[m['ch'][0]]
+                # is the value a negation (possibly truncated back by an explicit cast)?
+                q = m
+                while q['k'] in ('CXXStaticCastExpr', 'CStyleCastExpr', 'CXXFunctionalCastExpr', 'ParenExpr',
+                                 'ImplicitCastExpr') and q.get('ch'):
+                    q = f.nodes[q['ch'][0]]
+                sides.append((m, q['k'] == 'UnaryOperator' and q.get('op') == '-'))
+            neg = [i for i, (m, isneg) in enumerate(sides) if isneg]
+            if not neg:
+                continue
+            n += 1
+            key = 'R-WRAPWIDTH %s' % f.qn.split('::')[-1]
+            ctx.instance(rule, key + ' @%s' % f.loc(b), None)
+            wn = _width(sides[neg[0]][0].get('t', ''))
+            wo = _width(sides[1 - neg[0]][0].get('t', ''))
+            if wn is not None and wo is not None and wn != wo:
+                ctx.report(rule, key, f.loc(b), 'a %d-bit counter value is compared with a negated quantity computed in '
+                           '%d bits (%s): the wrapped value -r only exists in the counter\'s own width, so the two are '
+                           'never equal — the "all readers already left" case is missed and the writer parks with '
+                           'nobody left to resume it' % (wo, wn, f.text(b['i'])[:80]),
+                           'instantiation: ' + f.full[:300])
+    return n
+
+
 def run(ctx):
     fbs = ctx.facts(['K20', 'K20n'], kinds=('probe',), only=r'p_coro\.cpp$', tests=r'/test/',
                     quick_tests=r'unit/coro/async_shared_mutex\.cpp')
@@ -48,6 +102,8 @@ def run(ctx):
                   'E: readers queue only behind a writer; T: tail pointer; N: every unlinked writer is resumed or '
                   'armed, an unlock that leaves writers resumes somebody; D: reader credits; U: no underflow), '
                   'proved per path over linear pre-state expressions', minimum=32)
+    rww = ctx.rule('R-WRAPWIDTH', 'a comparison of a counter value with a negated (wrapped) quantity is evaluated in the '
+                   'counter\'s own width (no implicit widening on one side)', minimum=4)
     rgc = ctx.rule('R-GUARDCALLS', 'UniqueGuard / SharedGuard of the shared mutex: mode of every call into the mutex, '
                    'state transition before the call', minimum=8)
     from rules import lib_guard
@@ -55,6 +111,8 @@ def run(ctx):
         ctx.guard(lambda: lib_guard.check_guard_calls(ctx, fb, rgc))
         ctx.guard(lambda: lib_order.check(ctx, fb, cfg, WORDS, rw, ro, rc))
         ctx.guard(lambda: c15_inv.check(ctx, fb, cfg, ri))
+        if (ctx.guard(lambda: check_wrap_width(ctx, fb, rww)) or 0) < 1:
+            ctx.guard(lambda: ctx.broken('R-WRAPWIDTH: no comparison with a negated quantity found in shared_mutex.hpp'))
         fns = [f for f in fb.fn.values() if f.clsq == SM and f.cfg is not None]
         opts = {f.cls for f in fns}
         if len(opts) < 4:
